@@ -882,4 +882,11 @@ theorem whole_alloc_total_quadratic (ms : MemSizes) (hms : ms.Bounded) (b : Byte
     have := total_bind (C := 0) h1 (f := fun m => (pure (.ok ⟨f, m⟩) : M (Except Err Whole))) (fun _ _ => by rw [total_pure]; omega)
     omega
 
+/-- **C01.16e** the driver renders a panicking input from the run in which the Linux-maps operation is
+    wrapped the way the harness wraps it (`catch_unwind`, `readWholeWith true`); on every input that
+    does not panic the two runs are the same value with the same allocation log. -/
+theorem whole_render_faithful (ms : MemSizes) (b : Bytes) (h : ¬ ∃ site, (readWhole ms b).res = .panic site) :
+    readWholeWith true ms b = readWhole ms b :=
+  readWholeWith_caught_eq ms b h
+
 end MdModel.Dump
